@@ -102,10 +102,19 @@ func c18Reg(in Fields) Fields {
 	errc := make(chan error, 1)
 	go func() { errc <- conn.Connect() }()
 	var srv net.Conn
+	failed := false
 	select {
 	case srv = <-ms.Conns:
 	case err := <-errc:
-		return F("<<NO-DIAL>>", fmt.Sprint(err))
+		// Connect may already have failed (the TLS handshake refuses a nil SSLConfig before any
+		// I/O): the dial has happened all the same
+		failed = err != nil
+		errc <- err // keep it for the receive below
+		select {
+		case srv = <-ms.Conns:
+		default:
+			return F("<<NO-DIAL>>", fmt.Sprint(err))
+		}
 	case <-time.After(10 * time.Second):
 		return F("<<NO-CONNECT>>")
 	}
@@ -124,6 +133,7 @@ func c18Reg(in Fields) Fields {
 		}
 		return F(addr, 0)
 	}
+	_ = failed
 	if err := <-errc; err != nil {
 		srv.Close()
 		return F(addr, "<<CONNECT-ERROR>>", err.Error())
